@@ -8,7 +8,7 @@ use serde_json::{json, Value};
 use crate::{model::*, pipe, report::*, rustc_oracle::*, spaces::*, spec::*, util};
 
 /// The auxiliary definitions have the sizes the model's environment assumes.
-const AUX_ASSERTS: &str = "const _: () = assert!(core::mem::size_of::<Inner4>() == 4 && core::mem::align_of::<Inner4>() == 4 && core::mem::size_of::<Inner16>() == 16 && core::mem::align_of::<Inner16>() == 8 && core::mem::size_of::<Ext12>() == 12 && core::mem::align_of::<Ext12>() == 4 && core::mem::size_of::<En16>() == 2 && core::mem::align_of::<En16>() == 2);\n";
+const AUX_ASSERTS: &str = "const _: () = assert!(core::mem::size_of::<Inner4>() == 4 && core::mem::align_of::<Inner4>() == 4 && core::mem::size_of::<Inner16>() == 16 && core::mem::align_of::<Inner16>() == 8 && core::mem::size_of::<Ext12>() == 12 && core::mem::align_of::<Ext12>() == 4 && core::mem::size_of::<En16>() == 2 && core::mem::align_of::<En16>() == 2 && core::mem::size_of::<InnerV>() == 2 * core::mem::size_of::<usize>() && core::mem::align_of::<InnerV>() == core::mem::size_of::<usize>() && core::mem::size_of::<Empty8>() == 0 && core::mem::align_of::<Empty8>() == 8);\n";
 
 pub struct Accepted {
     pub index: usize,
@@ -58,6 +58,12 @@ pub fn explore(space: &LayoutSpace, ps: usize, rep: &mut Report, only: Option<us
     acc
 }
 
+/// The type carries its own vftable pointer: it declares a block and its first #[base] field
+/// (if any) is not the auxiliary type that already has a vftable.
+pub fn owns_vfptr(t: &TypeS) -> bool {
+    t.vft.is_some() && !t.fields.iter().find(|f| f.base).is_some_and(|f| f.ty == MTy::user("InnerV"))
+}
+
 fn rust_user(n: &str) -> String {
     if n == "T" { n.to_string() } else { format!("crate::aux::{n}") }
 }
@@ -75,13 +81,23 @@ fn appendix(asserts: &[(String, String)]) -> String {
 }
 
 fn c01_asserts(a: &Accepted, env: &Env) -> Vec<(String, String)> {
-    let lay = layout(&a.ty, a.ps as u64, env, a.ty.vft.is_some());
+    let lay = layout(&a.ty, a.ps as u64, env, owns_vfptr(&a.ty));
     let mut v = vec![];
+    // Expected offsets straight from the description, whatever the model thinks of its
+    // realisability: a written address is the offset; otherwise the field starts where the
+    // previous declared field ends (after the vftable pointer for the first one).
+    let mut end: i128 = if owns_vfptr(&a.ty) { a.ps as i128 } else { 0 };
+    let mut expected = vec![];
+    for (i, f) in a.ty.fields.iter().enumerate() {
+        let off = f.addr.unwrap_or(end);
+        expected.push(off);
+        end = off + lay.sizes[i] as i128;
+    }
     for (i, f) in a.ty.fields.iter().enumerate() {
         if let Some(name) = &f.name {
             v.push((
-                format!("offset:{name}:{}", lay.offsets[i]),
-                format!("core::mem::offset_of!(T, {name}) == {}", lay.offsets[i]),
+                format!("offset:{name}:{}", expected[i]),
+                format!("core::mem::offset_of!(T, {name}) as i128 == {}", expected[i]),
             ));
             // the field has the declared type, hence the declared extent
             v.push((
@@ -90,7 +106,7 @@ fn c01_asserts(a: &Accepted, env: &Env) -> Vec<(String, String)> {
             ));
         }
     }
-    if a.ty.vft.is_some() {
+    if owns_vfptr(&a.ty) {
         v.push(("offset:vftable:0".to_string(), "core::mem::offset_of!(T, vftable) == 0".to_string()));
     }
     v
@@ -117,6 +133,62 @@ fn c02_asserts(a: &Accepted) -> Vec<(String, String)> {
         v.push(("packed_align:T:1".to_string(), "core::mem::align_of::<T>() == 1".to_string()));
     }
     v
+}
+
+/// C02's additional spaces: by-value composition to depth 3, extern-type grid, empty types,
+/// vftable structs with placeholder slots. Returns inputs (single module `m`) plus Rust text
+/// supplying the extern types.
+fn c02_extra_inputs() -> Vec<(pipe::Input, String)> {
+    let mut out = vec![];
+    let shapes = |inner: &str, name: &str, k: usize| -> String {
+        match k {
+            0 => format!("pub type {name} {{\n    pub e: {inner},\n}}\n"),
+            1 => format!("pub type {name} {{\n    pub e: [{inner}; 3],\n}}\n"),
+            2 => format!("pub type {name} {{\n    pub p: *const {inner},\n    pub e: {inner},\n}}\n"),
+            3 => format!("#[packed]\npub type {name} {{\n    pub b: u8,\n    pub e: {inner},\n}}\n"),
+            _ => format!("pub type {name} {{\n    pub a: {inner},\n    pub b: {inner},\n}}\n"),
+        }
+    };
+    for b in ["u8", "u16", "u32", "u64", "u128", "f64", "bool", "*mut u8"] {
+        for k1 in 0..5 {
+            for k2 in 0..5 {
+                for k3 in 0..5 {
+                    let text = format!("{}{}{}", shapes(b, "L1", k1), shapes("L1", "L2", k2), shapes("L2", "L3", k3));
+                    out.push((pipe::Input::single(text), String::new()));
+                }
+            }
+        }
+    }
+    for size in [1u64, 4, 12, 16, 24] {
+        for align in [1u64, 4, 8, 16] {
+            let text = format!("#[size({size}), align({align})]\nextern type Ext;\npub type U {{\n    pub e: Ext,\n}}\npub type V {{\n    pub a: [Ext; 2],\n    pub b: Ext,\n}}\n#[packed]\npub type W {{\n    pub x: u8,\n    pub e: Ext,\n}}\n");
+            // supplied with the declared size; alignment through the element type where possible
+            let elem = match align { 1 => "u8", 4 => "u32", 8 => "u64", _ => "u128" };
+            let supply = if size % align == 0 { format!("#[repr(C)] #[derive(Clone, Copy)] pub struct Ext(pub [{elem}; {}]);\n", size / align) } else { format!("#[repr(C, align({align}))] #[derive(Clone, Copy)] pub struct Ext(pub [u8; {size}]);\n") };
+            out.push((pipe::Input::single(text), supply));
+        }
+    }
+    out.push((pipe::Input::single("pub type Empty {\n}\npub type Holder {\n    pub e: Empty,\n    pub x: u64,\n}\npub type Arr {\n    pub e: [Empty; 4],\n}\n#[size(16)]\npub type Opaque;\n#[size(3), packed]\npub type Odd;\n".to_string()), String::new()));
+    for nf in 0..=4usize {
+        for gap in 0..3usize {
+            for size in [None, Some(nf + gap * nf + 3)] {
+                let mut t = String::from("pub type T {\n");
+                if let Some(s) = size {
+                    t.push_str(&format!("    #[size({s})]\n"));
+                }
+                t.push_str("    vftable {\n");
+                for i in 0..nf {
+                    if gap > 0 {
+                        t.push_str(&format!("        #[index({})]\n", i * (gap + 1)));
+                    }
+                    t.push_str(&format!("        pub fn v{i}(&self, a: u32) -> u64;\n"));
+                }
+                t.push_str("    },\n    pub x: *const u8,\n}\npub type D {\n    #[base]\n    pub base: T,\n    pub y: *const u8,\n}\n");
+                out.push((pipe::Input::single(t), String::new()));
+            }
+        }
+    }
+    out
 }
 
 pub fn run(prop: &str, tier: &str, only: Option<&Value>) -> i32 {
@@ -245,6 +317,58 @@ pub fn run(prop: &str, tier: &str, only: Option<&Value>) -> i32 {
                     detail: format!("{label}\n{}\n--- emitted ---\n{}", ds.iter().map(|d| d.rendered.clone()).collect::<Vec<_>>().join("\n"), a.built.files["m.rs"].clone()),
                     locator: json!({"space": "layout_aux", "index": a.index, "ps": ps}),
                 });
+            }
+        }
+        if prop == "C02" && only_idx.is_none() {
+            // composition / extern grid / empty / vftable spaces
+            let extras = c02_extra_inputs();
+            let outs = util::par_map(extras.len(), |j, _| pipe::run(&extras[j].0, ps));
+            let mut xc = vec![];
+            let mut xo = vec![];
+            for (j, v) in outs.into_iter().enumerate() {
+                rep.states += 1;
+                rep.traces += 1;
+                rep.evaluations += 1;
+                rep.transitions += 1;
+                let pipe::Verdict::Ok(b) = v else {
+                    rep.count("extra_spaces_rejected", 1);
+                    continue;
+                };
+                rep.count("extra_spaces_accepted", 1);
+                let mut asserts = vec![];
+                for (path, it) in &b.items {
+                    if it.category != "defined" {
+                        continue;
+                    }
+                    let name = path.rsplit("::").next().unwrap();
+                    asserts.push((format!("size:{name}:{}", it.size), format!("core::mem::size_of::<{name}>() == {}", it.size)));
+                    asserts.push((format!("align:{name}:{}", it.alignment), format!("core::mem::align_of::<{name}>() == {}", it.alignment)));
+                    asserts.push((format!("array:{name}:{}", it.size * 3), format!("core::mem::size_of::<[{name}; 3]>() == {}", it.size * 3)));
+                }
+                let mut files = b.files.clone();
+                let text = files.get_mut("m.rs").unwrap();
+                text.push_str(&extras[j].1);
+                text.push_str(&appendix(&asserts));
+                rep.distinct.insert(util::fnv(&format!("{ps}{text}")));
+                xc.push(RCase::new(files));
+                xo.push(j);
+            }
+            match check_cases(&xc, target, 100) {
+                Err(e) => rep.machinery(format!("{e:#}")),
+                Ok((diags, _)) => {
+                    for (ci, ds) in diags.iter().enumerate() {
+                        if ds.is_empty() {
+                            continue;
+                        }
+                        let d = &ds[0];
+                        if !d.rendered.contains("@@") {
+                            rep.count(&format!("not_compilable_{}_(judged_by_C13)", d.code), 1);
+                            continue;
+                        }
+                        let label = d.rendered.split("@@").nth(1).unwrap_or("").to_string();
+                        rep.violation(Violation { key: format!("assert_failed:{}", label.split(':').next().unwrap()), features: vec!["extra_space".into()], input: extras[xo[ci]].0.clone(), ps, detail: format!("{label}\n{}", d.rendered), locator: json!({"space": "c02_extra", "index": xo[ci], "ps": ps}) });
+                    }
+                }
             }
         }
         for a in accepted.iter().step_by((accepted.len() / 3).max(1)).take(3) {
